@@ -19,6 +19,7 @@ import (
 	"log"
 	"os"
 	"path/filepath"
+	"strconv"
 	"strings"
 )
 
@@ -249,6 +250,7 @@ func (p *parser) doImport() error {
 	// importing anything already on that chain would never terminate
 	importChain := p.tokens[p.cursor-1].imports
 	addToChain := func(tokens []Token, name string) ([]Token, error) {
+		name = strconv.Quote(name) // (a file name may itself contain the separator)
 		for _, imp := range strings.Split(importChain, "\n") {
 			if imp == name {
 				return nil, p.Errf("Import cycle detected: %s", importPattern)
